@@ -55,7 +55,7 @@ def wrapDiff (latestSeq maxSeq seq : Nat) : Int :=
   let halfT : Int := Int.tdiv (i64 maxSeq) 2           -- Go: truncated division
   let negHalfT : Int := Int.tdiv (i64 (-(i64 maxSeq))) 2
   if diff0 > halfT then i64 (diff0 - i64 (u64 (maxSeq + 1)))
-  else if diff0 < 0 ∧ diff0 ≤ negHalfT then i64 (diff0 + i64 (u64 (maxSeq + 1)))
+  else if diff0 < negHalfT then i64 (diff0 + i64 (u64 (maxSeq + 1)))
   else diff0
 
 /-- where the window would be positioned by this number if nothing was accepted yet -/
